@@ -86,8 +86,8 @@ def make_rdms(rng, kind=None, n_rdm=None, n_cond=None, nan=False):
 
 def build(v, meta):
     import copy
-    return RDMs(v.copy(), dissimilarity_measure=meta['meas'], descriptors=copy.deepcopy(meta['desc']),
-                rdm_descriptors=copy.deepcopy(meta['rd']), pattern_descriptors=copy.deepcopy(meta['pd']))
+    return gen.derived_cycle(RDMs(v.copy(), dissimilarity_measure=meta['meas'], descriptors=copy.deepcopy(meta['desc']),
+                                  rdm_descriptors=copy.deepcopy(meta['rd']), pattern_descriptors=copy.deepcopy(meta['pd'])))
 
 
 def desc_equal(a, b):
